@@ -18,6 +18,7 @@ import (
 	ledger "github.com/formancehq/ledger/internal"
 	"github.com/formancehq/ledger/internal/storage/bucket"
 	ledgerstore "github.com/formancehq/ledger/internal/storage/ledger"
+	systemstore "github.com/formancehq/ledger/internal/storage/system"
 	"github.com/formancehq/ledger/internal/verif/pgfake"
 	"github.com/formancehq/ledger/pkg/features"
 )
@@ -87,8 +88,8 @@ func CaptureWrites(lenient bool) ([]Captured, error) {
 		)
 		return err
 	})
-	run("GetBalances", "two accounts, one asset each", func() error {
-		_, err := store.GetBalances(ctx, ledgerstore.BalanceQuery{"acc:a": {"USD"}, "acc:b": {"EUR"}})
+	run("GetBalances", "one account, two assets (a single map key keeps the rendering deterministic)", func() error {
+		_, err := store.GetBalances(ctx, ledgerstore.BalanceQuery{"acc:a": {"USD", "EUR"}})
 		return err
 	})
 	mkTx := func() *ledger.Transaction {
@@ -256,6 +257,15 @@ func CaptureWrites(lenient bool) ([]Captured, error) {
 	return out, firstErr
 }
 
+// CaptureSystemMigrations runs the real system-store migrator over a lenient
+// recording driver and returns every statement it issued, in order.
+func CaptureSystemMigrations() ([]pgfake.Stmt, error) {
+	srv := pgfake.StartRecording(true)
+	defer srv.Close()
+	err := systemstore.Migrate(context.Background(), srv.DB())
+	return srv.Log(), err
+}
+
 func captureMain(args []string) int {
 	fs := flag.NewFlagSet("capture", flag.ExitOnError)
 	lenient := fs.Bool("lenient", false, "do not fail on statements minisql cannot parse")
@@ -264,6 +274,16 @@ func captureMain(args []string) int {
 	var caps []Captured
 	var err error
 	switch *what {
+	case "sysmig":
+		stmts, merr := CaptureSystemMigrations()
+		for _, st := range stmts {
+			fmt.Printf("[%s] %s\n", st.Err, st.SQL)
+		}
+		if merr != nil {
+			fmt.Fprintln(os.Stderr, "migrate:", merr)
+			return 1
+		}
+		return 0
 	case "writes":
 		caps, err = CaptureWrites(*lenient)
 	default:
